@@ -82,6 +82,8 @@ class X:
             o = o.item()
         if isinstance(o, np.ndarray):
             return None
+        if isinstance(o, bool):
+            o = int(o)          # a comparison mask used as a factor (numpy: True * x = x, False * x = 0); the comparison is a recorded path condition
         return lit(o), float(o)
 
     def _bin(self, op, o, f, swap=False):
@@ -193,6 +195,9 @@ class Rec:
 
     def _add(self, k, v):
         self.e[k] = v if k not in self.e else self.e[k] + v
+
+    def copy(self):
+        r = Rec((0, 0)); r.shape = self.shape; r.e = dict(self.e); return r
 
     def _comb(self, o, f):
         if not isinstance(o, Rec):
@@ -307,6 +312,9 @@ def trace_class(repo, cname):
         out["gradient"] = fvals(pf.gradientTerm(phi))
         out["linmean"] = fvals(pf.linearMean(phi))
         out["arithmean"] = fvals(pf.arithmeticMean(phi))
+        # harmonic mean: the zero tests on the cell values are data-dependent choices -> path conditions (hypotheses of the lemmas)
+        t.conds.clear()
+        out["harmmean"] = fvals(pf.harmonicMean(phi)); out["harm_conds"] = list(t.conds); t.conds.clear()
         out["linsource"] = matrix(pf.linearSourceTerm(phi))
         out["constsource"] = vec(pf.constantSourceTerm(phi))
         dt = S("dt", 0.5)
@@ -348,6 +356,36 @@ def trace_class(repo, cname):
             out["ghostsp"] = vec(pf.boundary.cellValuesWithBoundaries(inner, BC))
             for a in per_axes:
                 getattr(BC, SIDES[a][0]).periodic = False
+        # solvePDE's assembly: the system handed to the (spying) external solver for a list of negated / scaled matrix terms, vector
+        # terms and a (matrix, vector) pair; called twice with the SAME list object (terms are reusable in a time loop)
+        sc = S("sc", 1.5)
+        pds = importlib.import_module("pyfvtool.pdesolver")
+        captured = []
+        def spy(M_, R_):
+            captured.append((M_, R_))
+            return np.zeros(int(np.prod(pshape)))
+        phis = pf.CellVariable(mesh, np.asarray(phi._value, dtype=object).copy(), BC, BCsTerm_precalc=False)
+        termlist = [-pf.diffusionTerm(Dv), pf.convectionTerm(uv) * sc, pf.linearSourceTerm(alpha), pf.constantSourceTerm(phi),
+                    pf.transientTerm(phi, dt, alpha), pf.divergenceTerm(uv)]
+        nterms = len(termlist)
+        t.conds.clear()
+        for rep in range(2):
+            res_ = pds.solvePDE(phis, termlist, externalsolver=spy)
+            if res_ is not phis:
+                raise TranslateError("solvePDE did not return the variable it was given")
+        if len(termlist) != nterms:
+            raise TranslateError("solvePDE changed the length of the term list it was given")
+        # solveExplicitPDE: old + dt * RHS on the interior, boundary values recomputed from the boundary conditions; input untouched
+        rhsv, _ = cell_field("rh", -1.0, 1.0)
+        phie = pf.CellVariable(mesh, np.asarray(phi._value, dtype=object).copy(), BC, BCsTerm_precalc=False)
+        before = [x_.txt for x_ in vec(phie._value[tuple(slice(1, -1) for _ in range(d))])]
+        newv = pds.solveExplicitPDE(phie, dt, np.asarray(rhsv._value, dtype=object).ravel())
+        if newv is phie or [x_.txt for x_ in vec(phie._value[tuple(slice(1, -1) for _ in range(d))])] != before:
+            raise TranslateError("solveExplicitPDE returned / modified its input variable")
+        out["explicit"] = vec(newv._value)
+        out["solveM"] = [matrix(c_[0]) for c_ in captured]
+        out["solveR"] = [vec(c_[1]) for c_ in captured]
+        t.conds.clear()
         # upwind advection: the builder chooses the donor cell by the SIGN of the velocity; each sign pattern is one path.  Two
         # patterns are traced (alternating signs, and the opposite), plus one with a separate direction field u_upwind.
         out["upwind"] = []
@@ -366,6 +404,8 @@ def trace_class(repo, cname):
                     arrs.append(np.array([]))
                 return pf.FaceVariable(mesh, *arrs)
             vv = field_with_signs("v", pat % 2)
+            t.conds.clear()
+            upm = fvals(pf.upwindMean(phi, vv)); upm_conds = list(t.conds)
             t.conds.clear()
             if pat < 2:
                 M = matrix(pf.convectionUpwindTerm(vv)); ww = None
@@ -423,7 +463,7 @@ def trace_class(repo, cname):
                 if not named:
                     raise TranslateError("an argument of _fsign is not a difference of two adjacent cell values: " + txt[:120])
                 fsmap.append((txt, named[0][0], [int(q) for q in named[0][1]]))
-            out["upwind"].append({"M": M, "conds": list(t.conds), "has_w": ww is not None, "tvd": Rt, "fsmap": fsmap})
+            out["upwind"].append({"M": M, "conds": list(t.conds), "has_w": ww is not None, "tvd": Rt, "fsmap": fsmap, "upwmean": upm, "upm_conds": upm_conds})
         t.conds.clear()
         out["conds"] = list(t.conds)
         out["dens"] = list(t.dens)
@@ -641,6 +681,65 @@ def emit(tr):
     face_vals("gradient", tr["gradient"], "gradient F tm tp")
     face_vals("linmean", tr["linmean"], "linmean F tm tp")
     face_vals("arithmean", tr["arithmean"], "arithmean F tm tp")
+    if tr.get("solveM"):
+        w("(*CHUNK*)")
+        xs = []
+        for k in range(ncell):
+            idx = [int(q) for q in np.unravel_index(k, pshape)]
+            xs.append("xs_" + "_".join(map(str, idx)))
+        w("Variables " + " ".join(xs) + " : T.")
+        rows = [f"  | {cell_of([int(q) for q in np.unravel_index(k, pshape)], d)} => {xs[k]}" for k in range(ncell)]
+        w("Definition tx : cvar F := fun c => match c with\n" + "\n".join(rows) + "\n  | _ => k0 F end.")
+        w("Definition tts : list (term F) := [TDiff F (kopp F (k1 F)) tD; TCen F sc tu; TLin F (k1 F) tal; TConst F (k1 F) tp; TTrans F tal dt tp; "
+          "TVec F (k1 F) (interior_or_zero F tm (divergence F tm tu))].")
+        for rep, (Ms, Rs) in enumerate(zip(tr["solveM"], tr["solveR"])):
+            byrow = rows_of(Ms)
+            for r in range(ncell):
+                idx = [int(q) for q in np.unravel_index(r, pshape)]
+                nghost = sum(1 for b in range(d) if idx[b] == 0 or idx[b] == Ns[b] + 1)
+                if nghost >= 2 and d == 2:
+                    continue
+                ents = byrow.get(r, {})
+                lhs = "(k0 F)"
+                for c in sorted(ents):
+                    lhs = f"(kadd F {lhs} (kmul F {ents[c].txt} {xs[c]}))"
+                if nghost == 0:
+                    lemma(f"solveL{rep}_{r}", lhs, f"sys_lhs F tm tts tx {cell_of(idx, d)}")
+                    lemma(f"solveR{rep}_{r}", Rs[r].txt, f"sys_rhs F tm tts {cell_of(idx, d)}")
+                else:
+                    lemma(f"solveL{rep}_{r}", lhs, f"bc_lhs F tm tbc tx {cell_of(idx, d)}")
+                    lemma(f"solveR{rep}_{r}", Rs[r].txt, f"bc_rhs F tm tbc {cell_of(idx, d)}")
+    if tr.get("explicit"):
+        w("(*CHUNK*)")
+        cvar_def("trh", "rh")
+        for r in range(ncell):
+            idx = [int(q) for q in np.unravel_index(r, pshape)]
+            if sum(1 for b in range(d) if idx[b] == 0 or idx[b] == Ns[b] + 1) >= 2:
+                continue
+            lemma(f"explicit_{r}", tr["explicit"][r].txt, f"explicit_step F tm tbc tp dt trh {cell_of(idx, d)}")
+    CMP0 = {">": lambda a, b: f"kltb F {b} {a}", "<": lambda a, b: f"kltb F {a} {b}", ">=": lambda a, b: f"kleb F {b} {a}", "<=": lambda a, b: f"kleb F {a} {b}", "==": lambda a, b: f"keqb F {a} {b}"}
+    if tr.get("harmmean") is not None:
+        w("(*CHUNK*)")
+        w("Section Harmonic.")
+        seenh = set(); k = 0
+        for cnd in tr["harm_conds"]:
+            if cnd[0] != "==" or (cnd[1], cnd[2]) in seenh:
+                continue
+            seenh.add((cnd[1], cnd[2]))
+            w(f"Hypothesis Hh_{k} : ltac:(let t := eval cbv in ({CMP0['=='](cnd[1], cnd[2])}) in exact (t = {'true' if cnd[3] else 'false'})).")
+            w(f"Hint Rewrite Hh_{k} : harm.")
+            if not cnd[3]:
+                w(f"Hypothesis Hhm_{k} : ltac:(let t := eval cbv in ({cnd[1]}) in exact (t <> z)).")
+            k += 1
+        w("Ltac harm_solve := cbv; repeat (autorewrite with harm; cbv beta iota); try reflexivity; field; repeat split; nz.")
+        for a in range(d):
+            shp = tr["fshapes"][a]
+            for k2 in range(int(np.prod(shp))):
+                idx = [int(q) for q in np.unravel_index(k2, shp)]
+                cell = [idx[b] + (0 if b == a else 1) for b in range(d)] + [0] * (3 - d)
+                nlem[0] += 1
+                w(f"Lemma harmmean_{'xyz'[a]}_" + "_".join(map(str, idx)) + f" : {tr['harmmean'][a][k2].txt} = harmmean F tm tp {AXN[a]} ({cell[0]}, {cell[1]}, {cell[2]})%nat.\nProof. harm_solve. Qed.")
+        w("End Harmonic.")
     # upwind advection, one sub-section per traced sign pattern
     CMP = {">": lambda a, b: f"klt_ {b} {a}", "<": lambda a, b: f"klt_ {a} {b}", ">=": lambda a, b: f"kle_ {b} {a}", "<=": lambda a, b: f"kle_ {a} {b}", "==": lambda a, b: f"keq_ {a} {b}"}
     for pat, up in enumerate(tr["upwind"]):
@@ -660,7 +759,7 @@ def emit(tr):
             fv2(f"tw{pat}", "w")
         seenc = set()
         k = 0
-        for cnd in up["conds"]:
+        for cnd in list(up["conds"]) + list(up.get("upm_conds", [])):
             if cnd[0] not in CMP or (cnd[0], cnd[1], cnd[2]) in seenc:
                 continue
             seenc.add((cnd[0], cnd[1], cnd[2]))
@@ -670,6 +769,15 @@ def emit(tr):
             k += 1
         w(f"Ltac up_solve := cbv; repeat (autorewrite with signs{pat}; cbv beta iota); try reflexivity; field; repeat split; nz.")
         uu = f"tv{pat}"; dd = f"tw{pat}" if up["has_w"] else uu
+        # upwindMean(phi, v) with this sign pattern: the donor-cell value (boundary value on boundary faces)
+        if up.get("upwmean") is not None:
+            for a in range(d):
+                shp = tr["fshapes"][a]
+                for k2 in range(int(np.prod(shp))):
+                    idx = [int(q) for q in np.unravel_index(k2, shp)]
+                    cell = [idx[b] + (0 if b == a else 1) for b in range(d)] + [0] * (3 - d)
+                    nlem[0] += 1
+                    w(f"Lemma upwmean{pat}_{'xyz'[a]}_" + "_".join(map(str, idx)) + f" : {up['upwmean'][a][k2].txt} = upwindmean F tm tp {uu} {AXN[a]} ({cell[0]}, {cell[1]}, {cell[2]})%nat.\nProof. up_solve. Qed.")
         byrow = rows_of(up["M"])
         for r in range(ncell):
             idx = [int(q) for q in np.unravel_index(r, pshape)]
